@@ -6,5 +6,6 @@ CONSTANTS
   MaxSteps = 8
   MaxDamage = 2
   MaxStamp = 5
+  ScriptId = "none"
 INVARIANT NoPropertyViolation
 CHECK_DEADLOCK FALSE
